@@ -1,10 +1,58 @@
 import VOPyVerif.Drv.Proto
-/-! Driver front end for property C09 (line protocol → executable model). -/
+import VOPyVerif.Model.Rect
+import VOPyVerif.Model.Ellipsoid
+/-! Driver front end for property C09 ("is dominated" for rectangles and ellipsoids).
+
+Slack arguments are the flattened slack array (`np.array(slackness).ravel()`): one entry for a
+scalar.  Answers `1` / `0` for booleans, `ValueError` where the model's guard rejects the slack.
+
+* `verts <l> <u>`                               → matrix `Rect.vertices l u`
+* `rect <W> <l1> <u1> <l2> <u2> <s>`            → `Rect.isDominatedChecked` (`1`/`0`/`ValueError`)
+* `recttol <W> <l1> <u1> <l2> <u2> <s> <t>`     → guard, then `Rect.isDominatedTol … t`
+* `sqrtineq <p> <b> <c> <d>`                    → `Ellipsoid.sqrtIneq p b c d`
+* `ell <W> <c1> <S1> <a1> <c2> <S2> <a2> <s>`   → `Ellipsoid.isDominatedChecked`
+* `elltol <W> <c1> <S1> <a1> <c2> <S2> <a2> <s> <t>` → guard, then `Ellipsoid.isDominatedTol … t`
+-/
 namespace VOPy.Drv.C09
 open VOPy VOPy.Proto
 
+def fmtOB : Option Bool → String
+  | some b => fmtBool b
+  | none => "ValueError"
+
 def handle (args : List String) : String :=
   match args with
+  | ["verts", l, u] =>
+    match parseVec l, parseVec u with
+    | some l, some u => fmtMat (Rect.vertices l u)
+    | _, _ => bad
+  | ["rect", w, l1, u1, l2, u2, s] =>
+    match parseMat w, parseVec l1, parseVec u1, parseVec l2, parseVec u2, parseVec s with
+    | some W, some l1, some u1, some l2, some u2, some s =>
+      fmtOB (Rect.isDominatedChecked W l1 u1 l2 u2 s)
+    | _, _, _, _, _, _ => bad
+  | ["recttol", w, l1, u1, l2, u2, s, t] =>
+    match parseMat w, parseVec l1, parseVec u1, parseVec l2, parseVec u2, parseVec s, parseRat t with
+    | some W, some l1, some u1, some l2, some u2, some s, some t =>
+      fmtOB ((Rect.expandSlack l1.length s).map fun s => Rect.isDominatedTol W l1 u1 l2 u2 s t)
+    | _, _, _, _, _, _, _ => bad
+  | ["sqrtineq", p, b, c, d] =>
+    match parseRat p, parseRat b, parseRat c, parseRat d with
+    | some p, some b, some c, some d => fmtBool (Ellipsoid.sqrtIneq p b c d)
+    | _, _, _, _ => bad
+  | ["ell", w, c1, s1, a1, c2, s2, a2, s] =>
+    match parseMat w, parseVec c1, parseMat s1, parseRat a1, parseVec c2, parseMat s2, parseRat a2,
+        parseVec s with
+    | some W, some c1, some S1, some a1, some c2, some S2, some a2, some s =>
+      fmtOB (Ellipsoid.isDominatedChecked W c1 S1 a1 c2 S2 a2 s)
+    | _, _, _, _, _, _, _, _ => bad
+  | ["elltol", w, c1, s1, a1, c2, s2, a2, s, t] =>
+    match parseMat w, parseVec c1, parseMat s1, parseRat a1, parseVec c2, parseMat s2, parseRat a2,
+        parseVec s, parseRat t with
+    | some W, some c1, some S1, some a1, some c2, some S2, some a2, some s, some t =>
+      fmtOB ((Ellipsoid.expandSlack W.length s).map fun s =>
+        Ellipsoid.isDominatedTol W c1 S1 a1 c2 S2 a2 s t)
+    | _, _, _, _, _, _, _, _, _ => bad
   | _ => bad
 
 end VOPy.Drv.C09
